@@ -107,6 +107,55 @@ def run(name, props, tier):
     return res
 
 
+def run_scratch(name, props, tier):
+    """Like run(), but on a scratch worktree of /repo (cargo `paths` override, separate target directory), so that
+    /repo itself is not touched (usable while a long run reads /repo)."""
+    import importlib.machinery, importlib.util
+    loader = importlib.machinery.SourceFileLoader("check_mod", os.path.join(ROOT, "check"))
+    spec = importlib.util.spec_from_loader("check_mod", loader)
+    check = importlib.util.module_from_spec(spec)
+    loader.exec_module(check)
+    dst = os.path.join(SEEDED, name)
+    meta = json.load(open(os.path.join(dst, "meta.json")))
+    if not props:
+        props = [meta["breaks_property"]]
+    wt = "/root/scratch/seedrepo"
+    tgt = "/root/scratch/seedtarget"
+    if not os.path.exists(wt):
+        rc, out = sh(["git", "-C", "/repo", "worktree", "add", "-q", "--detach", wt, "HEAD"])
+        assert rc == 0, out
+    sh("git checkout -q --detach $(git -C /repo rev-parse HEAD) && git checkout -- .", cwd=wt)
+    rc, out = sh(["git", "apply", os.path.join(dst, "patch.diff")], cwd=wt)
+    assert rc == 0, out
+    res = {}
+    os.environ["VERIF_NO_EVIDENCE"] = "1"
+    try:
+        for p in props:
+            import io, contextlib
+            buf = io.StringIO()
+            try:
+                with contextlib.redirect_stdout(buf):
+                    rc = check.check_property(p, tier, repo_override={"repo": wt, "target": tgt})
+            except SystemExit as e:
+                rc = e.code
+            out = buf.getvalue()
+            viol = [l for l in out.splitlines() if l.startswith("VIOLATION")]
+            verdict = "DETECTED" if rc == 1 and viol else ("MISSED" if rc == 0 else "MACHINERY(rc=%s)" % rc)
+            first = next((l for l in out.splitlines() if l.startswith("  ") and "observed" in l), "")
+            print("%s %s %s: %s (%d VIOLATION lines) %s" % (name, p, tier, verdict, len(viol), first.strip()[:300]), flush=True)
+            if verdict.startswith("MACHINERY"):
+                print(out[-2000:])
+            res[p] = verdict
+    finally:
+        sh("git checkout -- .", cwd=wt)
+        shutil.rmtree(os.path.join(ROOT, "replays"), ignore_errors=True)
+    meta.setdefault("detected_by", {})
+    for p, v in res.items():
+        meta["detected_by"]["%s %s" % (p, tier)] = v
+    json.dump(meta, open(os.path.join(dst, "meta.json"), "w"), indent=1)
+    return res
+
+
 if __name__ == "__main__":
     a = sys.argv[1:]
     if a[0] == "confirm":
@@ -120,4 +169,8 @@ if __name__ == "__main__":
             tier = a[a.index("--tier") + 1]
             i = a.index("--tier")
             a = a[:i] + a[i + 2:]
-        run(a[1], a[2:], tier)
+        if "--scratch" in a:
+            a.remove("--scratch")
+            run_scratch(a[1], a[2:], tier)
+        else:
+            run(a[1], a[2:], tier)
